@@ -25,6 +25,7 @@ mod c19;
 mod c20;
 mod c24;
 mod c35;
+mod pki;
 mod wf;
 
 fn main() {
@@ -87,6 +88,7 @@ fn main() {
         "c21-replay" => c20::replay_update(rest),
         "c24-run" => c24::run(rest),
         "c35-run" => c35::run(rest),
+        "pki-run" => pki::run(rest),
         "wf-run" => wf::run(rest),
         "wf-fresh" => wf::fresh(rest),
         _ => {
